@@ -41,12 +41,15 @@ WRAPPER = ("local i = 1 local r = nil while i <= #ARGV do local n = tonumber(ARG
 SCRIPT_VOCAB = ["SET", "SET", "GET", "GET", "MSET", "SETNX", "APPEND", "STRLEN", "DEL", "EXISTS", "TYPE",
                 "RPUSH", "LPUSH", "LPOP", "RPOP", "LLEN", "LINDEX", "SADD", "SREM", "SISMEMBER", "SCARD", "SMEMBERS",
                 "HSET", "HGET", "HDEL", "HLEN", "HEXISTS", "HKEYS", "HGETALL", "EXPIRE", "PERSIST", "RENAME",
-                "FLUSHDB", "DBSIZE", "KEYS", "DBSIZE", "KEYS"]
+                "FLUSHDB", "DBSIZE", "KEYS", "DBSIZE", "KEYS", "FLUSHALL"]
 DIRECT_VOCAB = ksgen.STRING_VOCAB + ksgen.COLL_VOCAB
 EXEC_VOCAB = [n for n in DIRECT_VOCAB if n not in RANDOM]
 
 SELECT_VALID = [str(i) for i in range(16)] + ["+5", "007", "+0", "015", "00000000000000000000003"] + ["0", "1", "14", "15"] * 3
-SELECT_INVALID = ["16", "17", "255", "256", "65536", "4294967296", "4294967297", "18446744073709551615", "18446744073709551616",
+# boundary indexes: the last database and just beyond it, powers of two, the i64/u64 edges, signs, padding, blanks, junk
+SELECT_BOUNDARY = ["15", "16", "17", "255", "256", "2147483648", "9223372036854775807", "9223372036854775808", "18446744073709551615",
+                   "18446744073709551616", "-1", "-0", "+1", "+15", "+16", "016", "015", "0016", " 1", "1 ", "", "abc", "1.0", "0", "14"]
+SELECT_INVALID = ["16", "17", "255", "256", "65536", "2147483648", "9223372036854775807", "9223372036854775808", "+16", "016", "0016", "4294967296", "4294967297", "18446744073709551615", "18446744073709551616",
                   "99999999999999999999999", "-1", "-0", "", " 1", "1 ", "abc", "1.0", "0x1", "1e0", "+", "++1", "\xff", "1\x00", "٣"]
 
 
@@ -154,6 +157,10 @@ def op_text(op):
         return "c%d: %s [%s]" % (op["c"], "EVALSHA" if op["sha"] else "EVAL", " ; ".join(" ".join(t(a) for a in cmd) for cmd in op["cmds"]))
     if op["k"] == "pipe":
         return "c%d: pipelined { %s }" % (op["c"], " | ".join(" ".join(t(a) for a in r) for r in op["reqs"]))
+    if op["k"] == "selcheck":
+        return "check: CLIENT LIST db= of every connection against the model's selections"
+    if op["k"] == "dumpcheck":
+        return "check: all 16 databases dumped and compared with the model"
     if op["k"] == "timeout":
         return "c%d: (its time-out fires: null array)" % op["c"]
     if op["k"] == "close":
@@ -482,6 +489,32 @@ class Sess:
             step["died"] = died
         return step
 
+    def _check_step(self, kind):
+        op = {"k": kind}
+        self.ops.append(op)
+        return {"op": op, "text": op_text(op), "pre_sel": 0, "in_multi": False, "queue": [], "name": kind, "accesses": ".", "served": ".",
+                "spec_served": ".", "same": True, "dev": False, "delivered": ".", "code": "", "spec": "", "impl": ""}
+
+    def selcheck(self):
+        """a refused SELECT keeps the selection, an accepted one sets it — on this connection only: CLIENT LIST against the model"""
+        step = self._check_step("selcheck")
+        si, sm = self.selections_impl(), self.selections_model()
+        live = [c for c in sorted(sm) if c not in self.dead]
+        step["impl"] = " ".join("c%d=%s" % (c, (si or {}).get(c)) for c in live)
+        step["code"] = step["spec"] = " ".join("c%d=%s" % (c, sm[c]) for c in live)
+        step["agree"] = si is None or step["impl"] == step["code"]
+        return step
+
+    def dumpcheck(self):
+        step = self._check_step("dumpcheck")
+        di, dm = self.dump_impl_all(), self.dump_model_all()
+        diff = [d for d in range(16) if di[d] != dm[d]]
+        step["impl"] = "differ: %s" % diff if diff else "equal"
+        step["code"] = step["spec"] = "equal"
+        step["dump_diff"] = {str(d): {"impl": di[d], "code": dm[d]} for d in diff}
+        step["agree"] = not diff
+        return step
+
     def fire_timeout(self, c):
         """the (short) time-out of blocked connection c fires: null array on the wire, no registration left"""
         op = {"k": "timeout", "c": c}
@@ -732,6 +765,8 @@ class HistGen:
                     cmd = [b"LINDEX", g.key(), str(r.choice([0, 1, -1, 2, -2, 5])).encode()]
                 elif name == "KEYS":
                     cmd = [b"KEYS", r.choice([b"*", b"k*", b"?", b"*1", b"miss", b"[kl]*"])]
+                elif name == "FLUSHALL":
+                    cmd = [b"FLUSHALL"]
                 else:
                     cmd = [name.encode()] + getattr(g, "g_" + name.lower())()
                 if self.s.luaq.get("lossyStrings") or self.s.luaq.get("utf8ArgsOnly"):
@@ -782,7 +817,11 @@ class HistGen:
             return [("pipe", op_pipe(c, [[b"SELECT", self.select_arg(True)], self.ge.command(), [b"SELECT", self.select_arg()], self.ge.command()]))]
         if k < 60 and self.profile != "noblock" and len(free) >= 2:
             return [("block", c)]
-        if k < 62:
+        if k < 65:
+            return [("selprobe", c)]
+        if k < 69:
+            return [("flush", c)]
+        if k < 71:
             return [("req", op_plain(c, r.choice([[b"EXEC"], [b"DISCARD"], [b"FLUSHDB"], [b"FLUSHALL"], [b"FLUSHDB", b"x"], [b"FLUSHALL", b"x"]])))]
         return [("req", op_plain(c, self.gd.command()))]
 
@@ -873,6 +912,23 @@ class Runner:
         s = self.s
         op = step["op"]
         out = {"isolation": False, "why": "reply differs from the code variant of the connection machine"}
+        if step.get("name") == "selcheck":
+            out.update({"isolation": True, "why": "the selections of the connections (CLIENT LIST db=) are not the prescribed ones: server %s, Spec %s"
+                        % (step["impl"], step["spec"])})
+            return out
+        if step.get("name") == "dumpcheck":
+            prev = next((st for st in reversed(s.steps[:-1]) if st.get("name") not in ("selcheck", "dumpcheck", "notwoken")), None)
+            out.update({"isolation": True, "dump_diff": step.get("dump_diff"),
+                        "why": "after %s databases %s are not what the Spec prescribes (dump of all 16)" % (prev["text"] if prev else "the history", sorted(step.get("dump_diff", {})))})
+            return out
+        if step.get("name") == "SELECT" and not step.get("in_multi") and op["k"] == "plain" and not step.get("died"):
+            # SELECT is the property itself: refused or accepted is judged against the Spec directly
+            i_ok, s_ok = step["impl"] == "( s 4f4b )", step["spec"] == "( s 4f4b )"
+            if i_ok != s_ok or (step["impl"] != "( e )" and not i_ok):
+                arg = unhx(op["args"][1]).decode("latin-1") if len(op["args"]) == 2 else "<%d arguments>" % (len(op["args"]) - 1)
+                out.update({"isolation": True, "why": "SELECT %r was %s, the Spec %s it (selectArg: one unsigned decimal below 16)"
+                            % (arg, "accepted" if i_ok else "answered %s" % step["impl"], "accepts" if s_ok else "refuses")})
+                return out
         ud = step.get("unexpected_delivery")
         if ud:
             used = {int(a.split(":")[1]) for a in step["accesses"].split(",")} if step.get("accesses", ".") != "." else {step["pre_sel"]}
@@ -899,6 +955,14 @@ class Runner:
         if step.get("accesses", ".") != ".":
             used = {int(a.split(":")[1]) for a in step["accesses"].split(",")}
         used.add(sel)
+        if step.get("name") == "EXEC" and step.get("in_multi") and not step.get("died"):
+            it, st_ = parse_tree(step["impl"]), parse_tree(step["spec"])
+            if it[0] == "a" and st_[0] == "a" and len(it[1]) == len(st_[1]) == len(step.get("queue_ops", [])):
+                for o, x, y in zip(step["queue_ops"], it[1], st_[1]):
+                    if o["k"] == "plain" and o["args"] and upname(o["args"][0]) == "SELECT" and (x == ("e",)) != (y == ("e",)):
+                        out.update({"isolation": True, "why": "the queued %s was %s by EXEC, the Spec %s it"
+                                    % (op_text(o), "refused" if x == ("e",) else "accepted", "refuses" if y == ("e",) else "accepts")})
+                        return out
         # (a) reads: the same command on every database (post-state of the model; meaningful for commands that do not write)
         if op["k"] == "plain" and not step["in_multi"] and step.get("name") not in ("EXEC", "MULTI", "DISCARD", "SELECT", "BLPOP", "BRPOP"):
             pr = s.probe(op["args"])
@@ -948,6 +1012,69 @@ class Runner:
                 out["why"] = ("a blocked client was served in its own database, but not what the code variant delivers (order of pops/wake-ups: C13's subject): model %s, got %s"
                               % (step.get("served"), step.get("delivered")))
         return out
+
+    # ---- SELECT at the boundaries, on every path, followed by a data command and a look at the selections
+    def select_probe(self, r, c, gen):
+        s = self.s
+        arg = gen._enc(r.choice(SELECT_BOUNDARY))
+        path = r.choice(["direct", "direct", "exec", "exec", "script", "pipe"])
+        self.rep.count("selprobe.%s.%s" % (path, "valid" if arg.strip(b"+").isdigit() and arg.strip() == arg and arg != b"" and int(arg) < 16 and not arg.startswith(b"-") else "invalid"))
+        sel = [r.choice([b"SELECT", b"select", b"Select"]), arg]
+        marker = [b"SET", b"selprobe", arg or b"empty"]
+        if path == "direct":
+            seq = [("req", op_plain(c, sel))]
+        elif path == "exec":
+            seq = [("req", op_plain(c, x)) for x in ([b"MULTI"], sel, marker, [b"EXEC"])]
+        elif path == "script":
+            seq = [("req", op_script(c, r.chance(1, 2), [[b"SELECT", arg]]))]          # refused inside scripts, selection kept
+        else:
+            seq = [("pipe", op_pipe(c, [sel, [b"GET", b"selprobe"]]))]
+        seq += [("req", op_plain(c, marker)), ("req", op_plain(c, [b"GET", b"selprobe"]))]
+        for kind, x in seq:
+            if kind == "req":
+                if not self.judge(s.request(c, x)):
+                    return False
+            else:
+                ok = True
+                for st in s.pipeline(c, x):
+                    ok = self.judge(st) and ok
+                if not ok:
+                    return False
+        return self.judge(s.selcheck())
+
+    # ---- FLUSHDB / FLUSHALL on every path with keys present in several other databases; all 16 dumped afterwards
+    def flush_scenario(self, r, c, gen):
+        s = self.s
+        others = [x for x in s.cl if x != c and x not in s.blocked and x not in s.dead and s.multi[x] is None]
+        seeder = r.choice(others) if others else c
+        if s.multi[seeder] is not None:
+            return True
+        for d in {self.bdb(r) for _ in range(r.range(2, 4))}:
+            if not self.do(seeder, [b"SELECT", str(d).encode()]):
+                return False
+            for x in r.choice([[[b"SET", b"k1", b"f%d" % d]], [[b"RPUSH", b"l", b"f"], [b"SET", b"k2", b"x"]], [[b"SADD", b"s", b"m"]], [[b"HSET", b"h", b"f1", b"v"]]]):
+                if not self.do(seeder, x):
+                    return False
+        if r.chance(1, 2):
+            if not self.do(c, [b"SELECT", str(self.bdb(r)).encode()]):
+                return False
+        cmd = [r.choice([b"FLUSHALL", b"FLUSHALL", b"FLUSHDB", b"flushall"])]
+        path = r.choice(["direct", "exec", "eval", "evalsha", "script-in-exec"])
+        self.rep.count("flush.%s.%s%s" % (cmd[0].decode().upper(), path, ".sel-boundary" if s.sel[c] in (0, 1, 14, 15) else ""))
+        if path == "direct":
+            seq = [op_plain(c, cmd)]
+        elif path == "exec":
+            seq = [op_plain(c, [b"MULTI"]), op_plain(c, [b"SET", b"k1", b"pre"]), op_plain(c, cmd), op_plain(c, [b"EXEC"])]
+        elif path in ("eval", "evalsha"):
+            seq = [op_script(c, path == "evalsha", r.choice([[cmd], [[b"SET", b"k1", b"pre"], cmd], [cmd, [b"DBSIZE"]]]))]
+        else:
+            seq = [op_plain(c, [b"MULTI"]), op_script(c, r.chance(1, 2), [[x.upper() for x in cmd]]), op_plain(c, [b"EXEC"])]
+        for x in seq:
+            if x["k"] == "script":
+                x["cmds"] = [[hx(a.upper()) if i == 0 else hx(a) for i, a in enumerate([unhx(h) for h in cmdl])] for cmdl in x["cmds"]]
+            if not self.judge(s.request(c, x)):
+                return False
+        return self.judge(s.dumpcheck())
 
     # ---- blocking sessions
     BKEYS = [b"bq", b"bq2", b"l", b"bq", b"k1", b"miss"]       # a small pool, reused under every selection
@@ -1136,6 +1263,12 @@ class Runner:
                     ok = True
                     for st in s.pipeline(x["c"], x):
                         ok = self.judge(st) and ok
+                elif kind == "selprobe":
+                    ok = self.select_probe(r, x, gen)
+                    done += 3
+                elif kind == "flush":
+                    ok = self.flush_scenario(r, x, gen)
+                    done += 6
                 else:
                     ok = self.blocking_scenario(r, x, gen)
                     done += 4
@@ -1168,7 +1301,9 @@ class Runner:
                 if st.get("accesses", ".") != ".":
                     used_dbs |= {int(a.split(":")[1]) for a in st["accesses"].split(",")}
             replay = {"family": FAMILY, "ops": list(s.ops), "failing_step": "final-dump", "problems": probs, "switches": s.switches,
-                      "why": "after the history the server's databases / selections differ from the model although every reply agreed"}
+                      "why": "after the history %s differ from what the Spec prescribes although every reply agreed: %s"
+                             % (", ".join(sorted({"database %d" % p["db"] if p["kind"] == "dump" else ("the selection of c%d" % p["conn"] if p["kind"] == "selection" else p["kind"]) for p in probs})),
+                                json.dumps(probs)[:300])}
             # every reply agreed, so a differing database is a write (or a selection) that went somewhere it should not
             self.new_failures.append(replay)
             return False
@@ -1192,6 +1327,12 @@ class Runner:
                     return s.steps
             elif op["k"] == "notwoken":
                 if op["c"] in s.blocked and not self.judge(s.check_not_woken(op["c"], op["db"], unhx(op["key"]))):
+                    return s.steps
+            elif op["k"] == "selcheck":
+                if not self.judge(s.selcheck()):
+                    return s.steps
+            elif op["k"] == "dumpcheck":
+                if not self.judge(s.dumpcheck()):
                     return s.steps
             elif op["k"] == "timeout":
                 if op["c"] in s.blocked and not self.judge(s.fire_timeout(op["c"])):
@@ -1223,6 +1364,19 @@ def corpus():
                          P(1, T("SELECT", "-1")), P(1, T("SELECT")), P(1, T("APPEND", "k", "c")), P(2, T("GET", "k")), P(3, T("SELECT", "005")), P(3, T("GET", "k"))],
         "clean-flush": [P(1, T("SET", "k", "0")), P(1, T("SELECT", 9)), P(1, T("SET", "k", "9")), P(2, T("SELECT", 15)), P(2, T("SET", "k", "15")),
                         P(1, T("FLUSHDB")), P(3, T("GET", "k")), P(2, T("GET", "k")), P(2, T("FLUSHALL")), P(3, T("GET", "k"))],
+        "clean-select-boundaries": [P(1, T("SELECT", 15)), P(1, T("SET", "selprobe", "15")), P(1, T("SELECT", 16)), P(1, T("SET", "selprobe", "16")),
+                                    {"k": "selcheck"}, P(1, T("SELECT", "016")), P(1, T("SELECT", 17)), P(1, T("SELECT", "-0")), P(1, T("SELECT", "+1")),
+                                    P(1, T("GET", "selprobe")), {"k": "selcheck"},
+                                    P(2, T("MULTI")), P(2, T("SELECT", 16)), P(2, T("SET", "selprobe", "q16")), P(2, T("SELECT", 15)), P(2, T("SELECT", "256")),
+                                    P(2, T("APPEND", "selprobe", "+")), P(2, T("EXEC")), {"k": "selcheck"},
+                                    S(3, 0, [T("SELECT", 16)]), S(3, 1, [T("SELECT", 3)]), P(3, T("SET", "selprobe", "3")), {"k": "selcheck"}, {"k": "dumpcheck"}],
+        "clean-flush-every-path": [P(1, T("SELECT", 15)), P(1, T("SET", "k1", "a")), P(1, T("SELECT", 1)), P(1, T("RPUSH", "l", "x")), P(2, T("SELECT", 14)),
+                                   P(2, T("SET", "k1", "b")), P(3, T("SELECT", 7)), P(3, T("SET", "k1", "c")), S(3, 0, [T("FLUSHDB")]), {"k": "dumpcheck"},
+                                   P(3, T("SET", "k1", "c")), S(3, 0, [T("FLUSHALL")]), {"k": "dumpcheck"},
+                                   P(1, T("SET", "k1", "a")), P(2, T("SET", "k1", "b")), P(3, T("SET", "k1", "c")), S(2, 1, [T("SET", "k2", "z"), T("FLUSHALL")]), {"k": "dumpcheck"},
+                                   P(1, T("SET", "k1", "a")), P(2, T("SET", "k1", "b")), P(3, T("MULTI")), S(3, 0, [T("FLUSHALL")]), P(3, T("EXEC")), {"k": "dumpcheck"},
+                                   P(1, T("SET", "k1", "a")), P(2, T("SET", "k1", "b")), P(3, T("MULTI")), P(3, T("FLUSHDB")), P(3, T("EXEC")), {"k": "dumpcheck"},
+                                   P(3, T("MULTI")), P(3, T("FLUSHALL")), P(3, T("EXEC")), {"k": "dumpcheck"}],
         "clean-exec": [P(1, T("SELECT", 4)), P(1, T("MULTI")), P(1, T("RPUSH", "l", "a")), P(2, T("SELECT", 4)), P(2, T("RPUSH", "l", "z")),
                        P(1, T("LRANGE", "l", 0, -1)), P(1, T("EXEC")), P(3, T("LRANGE", "l", 0, -1))],
     }
@@ -1254,7 +1408,12 @@ def main(tier, seed):
                 "malformed share included) sent directly, queued in MULTI..EXEC/DISCARD (with SELECTs and scripts in the queue, other connections "
                 "interleaved), through EVAL and EVALSHA of one wrapper script performing 1-3 redis.calls, pipelined SELECT+command segments, and "
                 "BLPOP/BRPOP on an empty list served later by a push of another connection (direct and EXEC path) after pushes to the same key name in "
-                "other databases that must not wake it (sequenced with VERIF BLOCKED / VERIF LOOP). Every reply is compared with the Lean connection machine "
+                "other databases that must not wake it (sequenced with VERIF BLOCKED / VERIF LOOP); blocking sessions (1-3 single/multi-key BLPOP/BRPOP per connection with "
+                "re-selection between them, key names reused, database indexes weighted to 0/1/14/15, served through any key by direct/EXEC/script pushes, timed "
+                "out, or abandoned by closing the socket, a second waiter on the same key name in another database, pushes to every (db, key) anybody ever "
+                "waited on); SELECT boundary probes (15, 16, 17, 255, 256, 2^31, 2^63-1, 2^63, 2^64-1, 2^64, -1, -0, +1, +16, 016, ' 1', '', abc ...) sent directly, "
+                "queued in EXEC, pipelined and from a script, each followed by a data command and a CLIENT LIST comparison; FLUSHDB/FLUSHALL sent directly, from "
+                "EXEC, from EVAL/EVALSHA and from a script inside EXEC with keys present in several other databases, all 16 databases dumped right afterwards. Every reply is compared with the Lean connection machine "
                 "(code variant: switches read off the regenerated dispatch table; Spec variant from the same pre-state); after each history all 16 databases "
                 "are dumped through point reads and compared with the model's 16 dumps and CLIENT LIST db= with the model's selections. "
                 "distinct = (path, command, reply class, selection != 0, used another database, served a blocked client) tuples reached")
@@ -1266,12 +1425,24 @@ def main(tier, seed):
         "blocking: single-key waits with integer timeouts that never fire (30 s / 0); multi-key leftovers, timeouts and pushes from scripts are C13's subject and are not generated; a blocking pop queued in MULTI never blocks (fast path or null array)",
         "WATCH, pub/sub, AUTH are not part of this machine; TTLs are >= 100 s so that nothing expires during a history",
     ]
-    ok, log, errs = proof_phase(rep, families=[FAMILY])
+    force = os.environ.get("C18_FORCE_SWITCHES")          # e.g. "evalshaDb0=0": sanity-testing only
+    try:
+        ok, log, errs = proof_phase(rep, families=[FAMILY])
+    except InternalError as e:
+        # the translator no longer recognises the source, or the model/driver no longer builds against the regenerated tables:
+        # the search still runs — with the last driver that did build and every switch off, i.e. with the Spec as the oracle —
+        # before anything is reported without a failing input
+        if not os.path.exists(os.path.join(LEAN_BIN, "drv_" + FAMILY)):
+            raise
+        ok, log, errs = False, str(e)[-6000:], [str(e)[-1500:]]
+        rep.obligations = rep.obligations or theorem_names(PID)
+        rep.extra["proof_phase_broke"] = str(e)[:600]
+        force = force or "evalshaDb0=0 scriptDbCmdsDb0=0 execSelectNoop=0"
     build_server()
     findings = load_findings()
     if os.environ.get("C18_IGNORE_FINDING"):              # sanity-testing of the violation path only
         findings = [f for f in findings if f["id"] != os.environ["C18_IGNORE_FINDING"]]
-    sess = Sess(rep, "c18", force_switches=os.environ.get("C18_FORCE_SWITCHES"))   # e.g. "evalshaDb0=0": sanity-testing only
+    sess = Sess(rep, "c18", force_switches=force)
     rep.extra["tree_switches"] = sess.switches
     rep.extra["lua_conversion_switches"] = sess.luaq
     rep.extra["blocking_config"] = sess.bcfg
